@@ -478,14 +478,20 @@ struct H
 
   // ------------------------------------------------------------ canonical state
 #ifdef VF_INTERNALS
-  template<class Item> void pre(Item* it, std::string& s)
+  template<class Item> void pre(Item* it, std::string& s, Item* parent = 0, int depth = 0)
   {
     if(!it) { s += '.'; return; }
+    if(depth > 64) { s += "(CYCLE)"; return; }
     char b[48];
-    snprintf(b, sizeof(b), "(%d h%d s%d", it->key.v, (int)it->height, (int)it->slope);
+    snprintf(b, sizeof(b), "(%d h%d s%d%s", it->key.v, (int)it->height, (int)it->slope, it->parent == parent ? "" : " parent!");   // a stale parent link decides a later removal
     s += b;
-    pre(it->left, s); pre(it->right, s);
+    pre(it->left, s, it, depth + 1); pre(it->right, s, it, depth + 1);
     s += ')';
+  }
+  template<class Item> void inorder(Item* it, std::vector<Item*>& out, int depth = 0)
+  {
+    if(!it || depth > 64) return;
+    inorder(it->left, out, depth + 1); out.push_back(it); inorder(it->right, out, depth + 1);
   }
 #endif
   std::string canon()
@@ -502,6 +508,15 @@ struct H
       bool prevLive = false, beginLive = false;
       for(auto* i = a->root; i;) { if(i == a->endItem.prev) prevLive = true; i = i->right; }      // the back item is the rightmost node
       for(auto* i = a->root; i;) { if(i == a->_begin.item) beginLive = true; i = i->left; }      // the front item is the leftmost node
+      // the doubly linked list through the items must be the in-order sequence of the tree
+      {
+        std::vector<decltype(a->root)> seq; inorder(a->root, seq);
+        bool ok = true; size_t i = 0;
+        for(auto* it = a->_begin.item; it && it != &a->endItem && i <= seq.size(); it = it->next, ++i)
+          if(i >= seq.size() || seq[i] != it || it->prev != (i ? seq[i - 1] : (decltype(a->root))0)) { ok = false; break; }
+        if(i != seq.size()) ok = false;
+        if(!ok) s += "|list!";
+      }
       s += vf::fmt("|n%d f%d b%d end.prev=%s begin=%s", (int)a->_size, f, b,
                    !a->endItem.prev ? "null" : prevLive ? "rightmost-path" : "STALE", a->_begin.item == &a->endItem ? "end" : beginLive ? "leftmost-path" : "STALE");
     }
